@@ -6,7 +6,8 @@ package main
 //	      DropLevel Rotate Conjugate Swap
 //	kind  the second operand (ciphertext register, plaintext, scalar type, vector type) or the parameter
 //	dest  "inplace" (opOut == op0), "new" (the XxxNew form), "out" (a fresh degree-1 ciphertext at the top
-//	      level, so Resize has work to do). Aliasing opOut == op1 belongs to C09.
+//	      level, so Resize has work to do), "reused" (a ciphertext used before: degree 2, top level, other
+//	      scale and LogDimensions, unrelated content). Aliasing opOut == op1 belongs to C09.
 //
 // Register conventions: R0 is the accumulator every instruction reads as op0 and writes; R1 and R2 are
 // the other ciphertext registers (R1 can be brought into R0's place with Swap). MulThenAdd computes
@@ -26,7 +27,7 @@ var classKinds = []string{"ct-other", "ct-same", "pt-eq", "complex128-gint", "co
 
 // remaining operand kinds (type variants of the same code paths): in-place destination only
 var typeKinds = []string{"pt-scale-x2", "pt-low-level", "float64-int", "float64-frac", "int", "int64", "uint", "uint64", "bigInt",
-	"bigFloat-int", "bigFloat-frac", "bignumComplex-gint", "bignumComplex-frac", "vec-float64-short", "vec-bigFloat", "vec-bignumComplex"}
+	"bigFloat-int", "bigFloat-frac", "bignumComplex-gint", "bignumComplex-frac", "vec-float64-short", "vec-bigFloat", "vec-bignumComplex", "vec-complex128-len1", "vec-float64-half"}
 
 var coreKinds = map[string]bool{"ct-other": true, "ct-same": true, "pt-eq": true, "complex128-gint": true, "complex128-frac": true, "vec-complex128": true}
 
@@ -34,7 +35,7 @@ func alphabet() []instr {
 	var a []instr
 	for _, op := range binaryOps {
 		for _, k := range classKinds {
-			for _, d := range []string{"inplace", "new", "out"} {
+			for _, d := range []string{"inplace", "new", "out", "reused"} {
 				a = append(a, instr{op, k, d, d == "inplace" && !(op == "Sub" && k != "ct-other")})
 			}
 		}
@@ -47,7 +48,7 @@ func alphabet() []instr {
 			a = append(a, instr{op, k, "acc", coreKinds[k] && op == "MulRelinThenAdd" || k == "ct-other"})
 		}
 	}
-	for _, d := range []string{"inplace", "new", "out"} {
+	for _, d := range []string{"inplace", "new", "out", "reused"} {
 		a = append(a, instr{"Relinearize", "-", d, d == "inplace"})
 		a = append(a, instr{"Rotate", "k1", d, d == "inplace"})
 	}
@@ -55,7 +56,7 @@ func alphabet() []instr {
 	for _, d := range []string{"inplace", "new", "out"} {
 		a = append(a, instr{"Conjugate", "-", d, d == "inplace"})
 	}
-	for _, d := range []string{"inplace", "out"} {
+	for _, d := range []string{"inplace", "out", "reused"} {
 		a = append(a, instr{"Rescale", "-", d, d == "inplace"})
 		for _, k := range []string{"min-default", "min-1.5xdefault", "min-default-squared"} {
 			a = append(a, instr{"RescaleTo", k, d, d == "inplace" && k == "min-default"})
